@@ -441,6 +441,58 @@ fn momentum(m: &HashMap<String, String>) {
     }
 }
 
+/// snap-dump STREAM DIR : replay the book histories of STREAM (levels 10) and save `<DIR>/<hid>.rust.json`.
+fn snap_dump(stream: &str, dir: &str) {
+    use bourse_verif_harness::bookdrive::Live;
+    std::fs::create_dir_all(dir).unwrap();
+    let rd = std::io::BufReader::new(std::fs::File::open(stream).expect("open stream"));
+    let mut cur: Option<(BookHeader, Live<10>)> = None;
+    let save = |cur: &mut Option<(BookHeader, Live<10>)>| {
+        if let Some((h, live)) = cur.take() {
+            if !live.dead {
+                let _ = live.book.save_json(format!("{}/{}.rust.json", dir, h.id), false);
+            }
+        }
+    };
+    for line in rd.lines() {
+        let line = line.unwrap();
+        let toks: Vec<&str> = line.split_whitespace().collect();
+        if toks.is_empty() { continue; }
+        match toks[0] {
+            "H" => {
+                save(&mut cur);
+                if let Some(h) = BookHeader::parse(&toks) {
+                    if h.levels == 10 {
+                        if let Some(l) = Live::<10>::new(&h, scratch_dir()) { cur = Some((h, l)); }
+                    }
+                }
+            }
+            "O" => {
+                if let (Some((_, live)), Some(op)) = (cur.as_mut(), Op::parse(&toks[1..])) {
+                    if !live.dead { let _ = live.step(&op); }
+                }
+            }
+            _ => {}
+        }
+    }
+    save(&mut cur);
+}
+
+/// snap-load DIR : load every `<hid>.py.json` written by the Python driver with the Rust core.
+fn snap_load(dir: &str) {
+    use bourse_book::OrderBook;
+    let mut names: Vec<_> = std::fs::read_dir(dir).unwrap().filter_map(|e| e.ok()).map(|e| e.path()).filter(|p| p.to_string_lossy().ends_with(".py.json")).collect();
+    names.sort();
+    for p in names {
+        let hid = p.file_name().unwrap().to_string_lossy().replace(".py.json", "");
+        match std::panic::catch_unwind(|| OrderBook::<10>::load_json(&p)) {
+            Ok(Ok(b)) => println!("X {} {}", hid, bourse_verif_harness::obs::observe(&b, true)),
+            Ok(Err(e)) => println!("X {} ERR:{}", hid, e.to_string().replace(' ', "_")),
+            Err(_) => println!("X {} PANIC", hid),
+        }
+    }
+}
+
 enum Hist {
     Book(BookHeader, Vec<Op>),
     Env(EnvHeader, Vec<EOp>),
@@ -503,6 +555,8 @@ fn main() {
         "replay" => replay(&args[2]),
         "env-gen" => env_gen(&m),
         "trunc" => trunc(&m),
+        "snap-dump" => snap_dump(&args[2], &args[3]),
+        "snap-load" => snap_load(&args[2]),
         "sim-gen" => sim_gen(&m),
         "agent-audit" => agent_audit(&m),
         "momentum" => momentum(&m),
